@@ -329,7 +329,7 @@ type FailCase struct {
 func genFail(t *rapid.T) FailCase {
 	good := []string{"a: {b: 1}\n", "a: {b: 2}\nc: 3\n", "a: {b: 1}\n---\na: {b: 5}\n", "- 1\n- 2\n"}
 	pick := func() string { return rapid.SampledFrom(good).Draw(t, "good") }
-	c := FailCase{Kind: rapid.SampledFrom([]string{"parse", "eval_doc_k", "decode_doc_k", "missing_file", "encode", "bad_flag_value", "eval_error_fn", "decode_op_doc_k", "decode_format", "bad_args"}).Draw(t, "kind")}
+	c := FailCase{Kind: rapid.SampledFrom([]string{"parse", "eval_doc_k", "decode_doc_k", "missing_file", "encode", "bad_flag_value", "eval_error_fn", "decode_op_doc_k", "decode_format", "bad_args", "encode_bytes"}).Draw(t, "kind")}
 	out := rapid.SampledFrom([]string{"", "-o=json", "-o=yaml", "-o=props", "-N", "-r"}).Draw(t, "flag")
 	mode := rapid.SampledFrom([]string{"", "ea"}).Draw(t, "mode")
 	if mode != "" {
@@ -418,6 +418,15 @@ func genFail(t *rapid.T) FailCase {
 		}
 		c.Args = append(c.Args, "-p="+bad[0], "-o=json", "--expression", ".")
 		c.Files = []string{bad[1]}
+	case "encode_bytes":
+		// a result the YAML emitter cannot write (a comment that is not UTF-8): reported, not dropped
+		c.Args = append(c.Args, "--expression", rapid.SampledFrom([]string{`.a head_comment = ("/w==" | @base64d)`, `.a line_comment = ("gICA" | @base64d)`}).Draw(t, "ebx"))
+		for i, a := range c.Args {
+			if strings.HasPrefix(a, "-o=") {
+				c.Args[i] = "-o=yaml"
+			}
+		}
+		c.Files = []string{rapid.SampledFrom([]string{"a: 1\n", "a: 1\n---\na: 2\n", "a: {b: 1}\nc: 3\n"}).Draw(t, "ebdoc")}
 	case "bad_args":
 		// flag combinations that need a file, given none (stdin is not piped): a usage error, not a crash
 		c.Args = rapid.SampledFrom([][]string{{"-i", ".a = 3"}, {"ea", "-i", ".a = 3"}, {"--front-matter=process", ".t = 1"}, {"ea", "--front-matter=extract", "."}, {"-n", "-i", ".a = 1"},
